@@ -31,11 +31,14 @@ type knownFinding struct {
 	Fixed      bool   `json:"fixed,omitempty"`
 	Property   string `json:"property"`
 	Obligation string `json:"obligation,omitempty"`
-	Witness    string `json:"witness,omitempty"`
-	Symptom    string `json:"symptom,omitempty"`
-	Commit     string `json:"commit,omitempty"`
-	What       string `json:"what,omitempty"`
-	Replay     string `json:"replay,omitempty"`
+	// ObligationRe: a finding that shows at many program points of generated code (one per corpus instance)
+	// is identified by a regular expression over obligation names instead of one name
+	ObligationRe string `json:"obligation_regex,omitempty"`
+	Witness      string `json:"witness,omitempty"`
+	Symptom      string `json:"symptom,omitempty"`
+	Commit       string `json:"commit,omitempty"`
+	What         string `json:"what,omitempty"`
+	Replay       string `json:"replay,omitempty"`
 }
 
 func loadKnownFindings() []knownFinding {
@@ -346,8 +349,13 @@ func matchKnown(known []knownFinding, prop, obl string) *knownFinding {
 			continue
 		}
 		// a clause checked at several program points yields NAME, NAME#2, NAME#3, ...: the finding names the clause
-		if k.Obligation == obl || strings.HasPrefix(obl, k.Obligation+"#") {
+		if k.Obligation != "" && (k.Obligation == obl || strings.HasPrefix(obl, k.Obligation+"#")) {
 			return k
+		}
+		if k.ObligationRe != "" {
+			if re, err := regexp.Compile(k.ObligationRe); err == nil && re.MatchString(obl) {
+				return k
+			}
 		}
 	}
 	return nil
